@@ -726,4 +726,221 @@ theorem output_eq (p : Params) (hp : p.Valid) (pieces : List (Method × List UIn
   rw [← fold_finish_encode p hp]
   exact hn
 
+/-! ### the encoder's assertions are unreachable -/
+
+/-- Encoder state, placeholder counter and (undrained) output pipe between `consume_once` calls:
+`EncoderState::new` on an empty iovec, then any sequence of `consume_once` calls on non-empty
+inputs by either method (this is what `encode_borrow`/`encode_copy` loops perform, piece after
+piece). -/
+inductive Reachable (p : Params) : EncState → Nat → Pipe → Prop
+  | init : Reachable p (Enc.init p 0).1 1 (runE Pipe.empty (Enc.init p 0).2)
+  | step {s : EncState} {nid : Nat} {q : Pipe} (m : Method) (input : List UInt8) :
+      Reachable p s nid q → input ≠ [] →
+      Reachable p (Enc.consumeOnce p s nid m input).st (Enc.consumeOnce p s nid m input).nextId
+        (runE q (Enc.consumeOnce p s nid m input).emits)
+
+theorem reachable_rel (p : Params) (hp : p.Valid) {s : EncState} {nid : Nat} {q : Pipe}
+    (h : Reachable p s nid q) : ∃ σ, Rel p s nid q σ ∧ σ.Inv p ∧ σ.Inv2 := by
+  induction h with
+  | init =>
+    obtain ⟨h1, h2⟩ := init_inv p hp
+    exact ⟨BS.init, ⟨rfl, rfl, rfl, rfl, rfl, rfl⟩, h1, h2⟩
+  | step m input _ hne ih =>
+    obtain ⟨σ, hrel, h1, h2⟩ := ih
+    obtain ⟨_, hrel'⟩ := consumeOnce_sim p hp _ _ _ σ m input hrel h1
+    obtain ⟨_, _, hfold⟩ := onceA_eq_fold p σ input hne h1
+    obtain ⟨h1', h2'⟩ := fold_inv p hp (input.take (onceA p σ input).2) σ h1 h2
+    rw [← hfold] at h1' h2'
+    exact ⟨_, hrel', h1', h2'⟩
+
+/-- A whole `encode_*` call stays inside `Reachable`. -/
+theorem feed_reachable (p : Params) (m : Method) (fuel : Nat) (s : EncState) (nid : Nat) (q : Pipe)
+    (input : List UInt8) (h : Reachable p s nid q) :
+    Reachable p (Enc.feed p fuel s nid m input).1 (Enc.feed p fuel s nid m input).2.1
+      (runE q (Enc.feed p fuel s nid m input).2.2) := by
+  induction fuel generalizing s nid q input with
+  | zero => simpa [feed_zero] using h
+  | succ fuel ih =>
+    by_cases hne : input = []
+    · subst hne; simpa [feed_nil] using h
+    · rw [feed_succ p fuel s nid m input hne]
+      simp only
+      rw [runE_append]
+      exact ih _ _ _ _ (Reachable.step m input h hne)
+
+/-- The chunk size this `consume_once` call hands to `encode_header`, if it closes the chunk. -/
+def closeCur (s : EncState) (input : List UInt8) : Option Nat :=
+  if s.mid ∧ input.head? = some FD then some s.cur
+  else
+    match findStuff (input.take ((flushS s).maxChunk - (flushS s).cur)) with
+    | some i => some ((flushS s).cur + i)
+    | none =>
+      if (input.take ((flushS s).maxChunk - (flushS s).cur)).length = (flushS s).maxChunk - (flushS s).cur
+      then some ((flushS s).cur + ((flushS s).maxChunk - (flushS s).cur))
+      else none
+
+/-- `encode_header(chunk_size = n, backref)`: `chunk_size < RADIX * RADIX`, `(1..=2).contains(&len)`,
+`header[len] == 0` (for `len = 1` that is `n / RADIX = 0`), and the two `as u8` casts are exact. -/
+def HeaderAsserts (p : Params) (s : EncState) (n : Nat) : Prop :=
+  n < p.radix * p.radix ∧ 1 ≤ s.brLen ∧ s.brLen ≤ 2 ∧ (s.brLen = 1 → n / p.radix = 0) ∧
+    n % p.radix < 256 ∧ n / p.radix < 256
+
+/-- Every assertion on the path `consume_once` takes from `s` on `input` (and the two in its
+callers' loops) holds; `q` is the output pipe when the call starts. -/
+def OnceAsserts (p : Params) (s : EncState) (nid : Nat) (m : Method) (q : Pipe) (input : List UInt8) : Prop :=
+  -- `consume_once` entry
+  s.cur + (if s.mid then 1 else 0) < s.maxChunk ∧
+  -- not completing a held stuff sequence: `cur < max`, `write_partial_stuff_sequence`'s `cur ≤ max`,
+  -- `cur < max` after it, and the truncated window is non-empty
+  (¬ (s.mid ∧ input.head? = some FD) →
+     s.cur < s.maxChunk ∧ (flushS s).cur ≤ s.maxChunk ∧ (flushS s).cur < s.maxChunk ∧
+     input.take (s.maxChunk - (flushS s).cur) ≠ []) ∧
+  -- closing arms: `write`/`copy`'s `cur ≤ max`, `encode_header`'s assertions, and
+  -- `backfill_or_panic`: the placeholder exists in the pipe with exactly `brLen` cells
+  (∀ n, closeCur s input = some n →
+     n ≤ s.maxChunk ∧ HeaderAsserts p s n ∧ q.cells.count (Cell.hole s.backref) = s.brLen) ∧
+  -- on return (non-closing arm: `write`/`copy`'s assert and the exit assert; closing arms: fresh state)
+  ((Enc.consumeOnce p s nid m input).st.cur ≤ (Enc.consumeOnce p s nid m input).st.maxChunk ∧
+   (Enc.consumeOnce p s nid m input).st.cur + (if (Enc.consumeOnce p s nid m input).st.mid then 1 else 0)
+     < (Enc.consumeOnce p s nid m input).st.maxChunk) ∧
+  -- the callers' loops: `consumed <= input.len()`, progress
+  (Enc.consumeOnce p s nid m input).consumed ≤ input.length ∧ 0 < (Enc.consumeOnce p s nid m input).consumed
+
+/-- `terminate`: `write_partial_stuff_sequence`'s assert, `cur < max`, `encode_header`, backfill. -/
+def FinishAsserts (p : Params) (s : EncState) (q : Pipe) : Prop :=
+  (flushS s).cur ≤ s.maxChunk ∧ (flushS s).cur < s.maxChunk ∧ HeaderAsserts p s (flushS s).cur ∧
+    q.cells.count (Cell.hole s.backref) = s.brLen
+
+theorem count_hole_map_byte (l : List UInt8) (id : Nat) : (l.map Cell.byte).count (Cell.hole id) = 0 := by
+  induction l with
+  | nil => rfl
+  | cons b t ih => simp [ih]
+
+theorem count_hole_pipeOf (d : List UInt8) (k id : Nat) (b : List UInt8) :
+    (pipeOf d k id b).cells.count (Cell.hole id) = k := by
+  simp [pipeOf, List.count_append, count_hole_map_byte, List.count_replicate_self]
+
+theorem headerAsserts_of_le (p : Params) (hp : p.Valid) (s : EncState) (first : Bool)
+    (hbr : s.brLen = hdrLen first) {n : Nat} (hn : n ≤ limit p first) : HeaderAsserts p s n := by
+  obtain ⟨h1, h2, h3, h4, h5, h6⟩ := hp
+  have hrr : p.radix ≤ p.radix * p.radix := Nat.le_mul_of_pos_left _ (by omega)
+  have hlt : n < p.radix * p.radix := by
+    cases first <;> simp only [limit_true, limit_false] at hn <;> omega
+  have hdiv : n / p.radix < p.radix := Nat.div_lt_of_lt_mul hlt
+  have hmod : n % p.radix < p.radix := Nat.mod_lt _ (by omega)
+  refine ⟨hlt, ?_, ?_, ?_, by omega, by omega⟩
+  · cases first <;> simp [hbr]
+  · cases first <;> simp [hbr]
+  · intro hb1
+    cases first with
+    | false => simp [hbr] at hb1
+    | true => simp only [limit_true] at hn; exact Nat.div_eq_of_lt (by omega)
+
+theorem once_asserts (p : Params) (hp : p.Valid) {s : EncState} {nid : Nat} {q : Pipe}
+    (h : Reachable p s nid q) (m : Method) (input : List UInt8) (hne : input ≠ []) :
+    OnceAsserts p s nid m q input := by
+  obtain ⟨σ, hrel, h1, h2⟩ := reachable_rel p hp h
+  obtain ⟨hc, hrel'⟩ := consumeOnce_sim p hp s nid q σ m input hrel h1
+  obtain ⟨hc0, hc1, hfold⟩ := onceA_eq_fold p σ input hne h1
+  obtain ⟨h1', _⟩ := fold_inv p hp (input.take (onceA p σ input).2) σ h1 h2
+  rw [← hfold] at h1'
+  obtain ⟨hmax, hcur, hmid, hbr, hnid, hq⟩ := hrel
+  have hefl : σ.eff.length = (flushS s).cur := by
+    rw [BS.eff_length, ← hmid, ← hcur]; unfold flushS; split <;> simp_all
+  have hefl2 : σ.eff.length = s.cur + (if s.mid then 1 else 0) := by
+    rw [BS.eff_length, ← hmid, ← hcur]
+  have hfmax : (flushS s).maxChunk = s.maxChunk := by unfold flushS; split <;> rfl
+  have hinv' : σ.eff.length < limit p σ.first := h1
+  have hM : σ.M p = limit p σ.first := rfl
+  have hlen0 : 0 < input.length := List.length_pos_iff.2 hne
+  refine ⟨by omega, ?_, ?_, ?_, by omega, by omega⟩
+  · intro _
+    refine ⟨by omega, by omega, by omega, ?_⟩
+    intro hnil
+    have := congrArg List.length hnil
+    rw [List.length_take] at this
+    simp only [List.length_nil] at this
+    omega
+  · intro n hn
+    have hcount : q.cells.count (Cell.hole s.backref) = s.brLen := by rw [hq]; exact count_hole_pipeOf _ _ _ _
+    have key : n ≤ limit p σ.first := by
+      unfold closeCur at hn
+      split at hn
+      · cases hn; omega
+      · split at hn
+        · rename_i i hfs
+          cases hn
+          have hi := (findStuff_some hfs).1
+          rw [List.length_take] at hi
+          omega
+        · split at hn
+          · cases hn; omega
+          · cases hn
+    exact ⟨by omega, headerAsserts_of_le p hp s σ.first hbr key, hcount⟩
+  · obtain ⟨hmax', hcur', hmid', _, _, _⟩ := hrel'
+    have hi : (onceA p σ input).1.eff.length < limit p (onceA p σ input).1.first := h1'
+    rw [BS.eff_length, ← hmid', ← hcur'] at hi
+    have hM' : (onceA p σ input).1.M p = limit p (onceA p σ input).1.first := rfl
+    omega
+
+theorem finish_asserts (p : Params) (hp : p.Valid) {s : EncState} {nid : Nat} {q : Pipe}
+    (h : Reachable p s nid q) : FinishAsserts p s q := by
+  obtain ⟨σ, hrel, h1, _⟩ := reachable_rel p hp h
+  obtain ⟨hmax, hcur, hmid, hbr, hnid, hq⟩ := hrel
+  have hefl : σ.eff.length = (flushS s).cur := by
+    rw [BS.eff_length, ← hmid, ← hcur]; unfold flushS; split <;> simp_all
+  have hinv' : σ.eff.length < limit p σ.first := h1
+  have hM : σ.M p = limit p σ.first := rfl
+  exact ⟨by omega, by omega, headerAsserts_of_le p hp s σ.first hbr (by omega),
+    by rw [hq]; exact count_hole_pipeOf _ _ _ _⟩
+
+theorem flushE_isAppend (s : EncState) : ∀ e ∈ flushE s, Op.isAppend e.op = true := by
+  intro e he
+  unfold flushE at he
+  split at he
+  · simp at he; subst he; rfl
+  · simp at he
+
+theorem writeE_isAppend (m : Method) (n : Nat) (bs : List UInt8) :
+    ∀ e ∈ writeE m n bs, Op.isAppend e.op = true := by
+  intro e he
+  unfold writeE at he
+  split at he
+  · simp at he
+  · simp at he; subst he; rfl
+
+/-- `closeCur` is the model's: when it is `some n` the call ends with `encode_header(n)` on the
+current placeholder followed by `new_subsequent`; when it is `none` nothing is closed. -/
+theorem closeCur_spec (p : Params) (s : EncState) (nid : Nat) (m : Method) (input : List UInt8) :
+    match closeCur s input with
+    | some n => ∃ pre s2, (Enc.consumeOnce p s nid m input).emits = pre ++ closeE p s2 ∧ s2.cur = n ∧
+        s2.backref = s.backref ∧ s2.brLen = s.brLen
+    | none => (Enc.consumeOnce p s nid m input).nextId = nid ∧
+        ∀ e ∈ (Enc.consumeOnce p s nid m input).emits, Op.isAppend e.op = true := by
+  have hfbr : (flushS s).brLen = s.brLen ∧ (flushS s).backref = s.backref := by
+    unfold flushS; split <;> exact ⟨rfl, rfl⟩
+  unfold closeCur
+  by_cases hA : s.mid ∧ input.head? = some FD
+  · rw [if_pos hA, consumeOnce_mid p s nid m input hA]
+    exact ⟨[], s, rfl, rfl, rfl, rfl⟩
+  · rw [if_neg hA]
+    cases hfs : findStuff (input.take ((flushS s).maxChunk - (flushS s).cur)) with
+    | some i =>
+      rw [consumeOnce_stuff p s nid m input hA hfs]
+      exact ⟨_, _, rfl, rfl, hfbr.2, hfbr.1⟩
+    | none =>
+      by_cases hfull : (input.take ((flushS s).maxChunk - (flushS s).cur)).length
+          = (flushS s).maxChunk - (flushS s).cur
+      · simp only [if_pos hfull]
+        rw [consumeOnce_full p s nid m input hA hfs hfull]
+        exact ⟨_, _, rfl, rfl, hfbr.2, hfbr.1⟩
+      · simp only [if_neg hfull]
+        rw [consumeOnce_part p s nid m input hA hfs hfull]
+        refine ⟨rfl, ?_⟩
+        intro e he
+        simp only [List.mem_append] at he
+        rcases he with he | he
+        · exact flushE_isAppend s e he
+        · exact writeE_isAppend m _ _ e he
+
 end Woodpile.Hcobs.EncProof
